@@ -495,6 +495,119 @@ def rule_slot_pairing(chk, prog):
 
 
 # ----------------------------------------------------------------------------
+# rule 9: constant None/truth tests on methods; the guard of the additive baseline
+# ----------------------------------------------------------------------------
+def _truth_tests(fn):
+    """(expression `self.<name>`, kind) for every None comparison / truthiness use of a self attribute"""
+    out = []
+    for n in pf.walk_no_nested(fn):
+        if isinstance(n, ast.Compare) and len(n.ops) == 1 and isinstance(n.ops[0], (ast.Is, ast.IsNot, ast.Eq, ast.NotEq)) \
+                and isinstance(n.comparators[0], ast.Constant) and n.comparators[0].value is None \
+                and pf.is_self_attr(n.left):
+            out.append((n.left, "compared with None", n))
+        tests = []
+        if isinstance(n, (ast.If, ast.While, ast.IfExp, ast.Assert)):
+            tests.append(n.test)
+        elif isinstance(n, ast.BoolOp):
+            tests += n.values
+        elif isinstance(n, ast.UnaryOp) and isinstance(n.op, ast.Not):
+            tests.append(n.operand)
+        for t in tests:
+            if pf.is_self_attr(t):
+                out.append((t, "used as a truth value", n))
+    return out
+
+
+def _data_attrs(prog, mod, cls):
+    """names that are (also) data on instances of cls: class-level assignments and self.<name> = ... stores
+    anywhere in the classes of the MRO"""
+    out = set()
+    for m, c in prog.mro(mod, cls):
+        out |= set(pf.class_attrs(c))
+        for fn in pf.methods(c).values():
+            for n in pf.walk_no_nested(fn):
+                if isinstance(n, (ast.Assign, ast.AugAssign, ast.AnnAssign)):
+                    for t in (n.targets if isinstance(n, ast.Assign) else [n.target]):
+                        for x in ast.walk(t):
+                            if pf.is_self_attr(x) and isinstance(x.ctx, ast.Store):
+                                out.add(x.attr)
+    return out
+
+
+def rule_method_truth(chk, prog):
+    ntests = 0
+    for rel in (XE, XE2):
+        mod = prog.module(rel)
+        for cname, cls in mod.classes.items():
+            data = _data_attrs(prog, mod, cls)
+            for mname, fn in pf.methods(cls).items():
+                for attr, kind, node in _truth_tests(fn):
+                    r = prog.find_method(mod, cls, attr.attr)
+                    ntests += 1
+                    inst = "%s.%s: `%s` %s is a test on data" % (cname, mname, pf.src(attr), kind)
+                    if r is None or attr.attr in data or any(
+                            pf.src(d).split(".")[-1] in ("property", "cached_property", "setter")
+                            for d in r[2].decorator_list):
+                        chk.ok("method-truth", inst)
+                        continue
+                    chk.violation("method-truth", rel, "%s.%s" % (cname, mname), pf.src(node)[:110], node.lineno,
+                                  "`%s` is %s, but it resolves to the method %s.%s (not a property, never assigned "
+                                  "on the instance): a bound method is never None and always true, so the test is "
+                                  "constant and the state it was meant to inspect is never checked" % (
+                                      pf.src(attr), kind, r[1].name, attr.attr), instance=inst)
+    chk.count("None/truth tests on self attributes", ntests)
+    # twins: the call of the additive baseline is guarded by a None test on an attribute that the
+    # additive-baseline method itself reads
+    for rel, cname in ((XE, "KernelEvalBase"), (XE2, "KernelEvalBase2")):
+        mod = prog.module(rel)
+        cls = mod.cls(cname)
+        r = prog.find_method(mod, cls, "additive_baseline")
+        if r is None:
+            raise core.AnalysisError("%s.additive_baseline vanished" % cname)
+        reads = {x.attr for x in ast.walk(r[2]) if pf.is_self_attr(x) and isinstance(x.ctx, ast.Load)
+                 and prog.find_method(mod, cls, x.attr) is None}
+        sites = 0
+        for mname, fn in pf.methods(cls).items():
+            if fn is r[2]:
+                continue
+            for call in pf.walk_no_nested(fn):
+                if not (isinstance(call, ast.Call) and pf.is_self_attr(call.func, "additive_baseline")):
+                    continue
+                sites += 1
+                guards = set()
+                for t, pol, kind in cfgm.conditions_at(call):
+                    exprs = [t]
+                    for x in ast.walk(t):
+                        if isinstance(x, ast.Name):
+                            d = er.reaching_assign(fn, x.id, call)
+                            if d is not None:
+                                exprs.append(d.value)
+                    for e in exprs:
+                        for x in ast.walk(e):
+                            if isinstance(x, ast.Compare) and len(x.ops) == 1 and isinstance(x.ops[0], (ast.Is, ast.IsNot)) \
+                                    and isinstance(x.comparators[0], ast.Constant) and x.comparators[0].value is None \
+                                    and pf.is_self_attr(x.left):
+                                guards.add(x.left.attr)
+                inst = "%s.%s: the additive baseline is guarded by the attribute it reads" % (cname, mname)
+                own_guard = any(isinstance(x, ast.Compare) and pf.is_self_attr(x.left) and x.left.attr in reads
+                                and isinstance(x.comparators[0], ast.Constant) and x.comparators[0].value is None
+                                for x in ast.walk(r[2]))
+                if guards & reads or (not guards and own_guard):
+                    chk.ok("method-truth", inst, detail="guard on self.%s" % sorted((guards & reads) or reads)[0])
+                elif guards:
+                    chk.violation("method-truth", rel, "%s.%s" % (cname, mname), pf.src(call)[:100], call.lineno,
+                                  "the call of additive_baseline is guarded by a None test on self.%s, but "
+                                  "additive_baseline reads self.%s: the guard does not inspect the state the call "
+                                  "depends on (its twin class guards on the attribute it reads)" % (
+                                      sorted(guards)[0], "/self.".join(sorted(reads)) or "<nothing>"), instance=inst)
+                else:
+                    chk.ok("method-truth", inst + " (unguarded call; the method handles None itself)",
+                           nontrivial=False)
+        if not sites:
+            raise core.AnalysisError("%s never calls self.additive_baseline(...)" % cname)
+
+
+# ----------------------------------------------------------------------------
 # rule 6: mode ladders
 # ----------------------------------------------------------------------------
 LADDER_CLASSES = ((XE, "KernelEvalBase"), (XE, "MappedDFTKernel"), (XE2, "KernelEvalBase2"),
@@ -585,6 +698,10 @@ def _analyse_own(chk):
         c_, prog, list(LADDER_CLASSES) + [(m_.rel, k_.name) for m_, k_ in evaluator_classes(prog)]))
     chk.floor("stale-loop-var", 4, "methods with loops in the evaluator base classes and FuncEvaluator subclasses")
     chk.guard(rule_mode_ladders, prog)
+    chk.rule("method-truth", "no None/truthiness test on a self attribute that resolves to a plain method; the "
+                             "additive baseline is guarded by a None test on the attribute its method reads")
+    chk.guard(rule_method_truth, prog)
+    chk.floor("method-truth", 3, "None tests on self attributes + the two additive-baseline call sites")
     chk.rule("slot-pairing", "spin loops: the slot of an input array that is read and the slot of its zeros_like "
                              "derivative buffer that is written are the same expression of the loop variable")
     chk.guard(rule_slot_pairing, prog)
@@ -651,6 +768,16 @@ def mutants(tree):
                expect="slot-pairing"),
         Mutant("per-spin baseline: sigma derivative written at slot s", XE2,
                "sep_res[2][2 * s] = 2 * res[2]", "sep_res[2][s] = 2 * res[2]", expect="slot-pairing"),
+        Mutant("additive-baseline guard tests the bound method", XE,
+               "add_base = add_base and self._add_basefunc is not None",
+               "add_base = add_base and self.additive_baseline is not None", expect="method-truth"),
+        Mutant("v2 additive-baseline guard tests the bound method", XE2,
+               "add_base = add_base and self._add_basefunc is not None",
+               "add_base = add_base and self.additive_baseline is not None", expect="method-truth"),
+        Mutant("truthiness of a method used as a flag", XE,
+               "        if add_base:\n            a, da = self.additive_baseline(X0T)\n",
+               "        if add_base and self.multiplicative_baseline:\n            a, da = self.additive_baseline(X0T)\n",
+               expect="method-truth"),
         Mutant("linear evaluator overwrites res", XE, "res[:] += X1.dot(self.consts)", "res[:] = X1.dot(self.consts)",
                expect="accumulate-py"),
         Mutant("spline evaluator overwrites dres columns", XE, "dres[:, ind_set] += dy * self.scale[t]",
